@@ -18,6 +18,9 @@ from . import common as C
 H = lambda b: b.hex()
 HD = lambda b: b.hex() if b else "-"
 S = lambda s: s.encode("utf-8")
+# 6-byte strings in which a multi-byte character covers byte offset 1, 2, 3, 4 or 5 (the "0x" + 4 digits shape)
+NONASCII_6 = ["\u00e91234", "0\u00e9123", "0x\u00e912", "0x1\u00e91", "0x12\u00e9", "\u20ac123", "0\u20ac12", "0x\u20ac1", "0x0\u20ac",
+              "\u5bc6\u7801", "\U0001f60012", "0x\U0001f600", "0\u0445001"]
 
 # ---- third implementation of the wire format ---------------------------------------------------
 
@@ -244,6 +247,20 @@ class Gen:
         for v in (["hex"], ["BASE64"], ["Base64"], [""], None, ["base64", "x"], ["base32"], ["base64 "]):
             rep("encoding", v, "kp:enc-nonbase64" if v in (["hex"], [""], None, ["base32"], ["base64 "]) else "kp:enc-variant")
         out.append(self.case("kp:enc-variant", self.kp_op(B[:-1] + [("encoding", ["hex"]), ("encoding", ["base64"])])))
+        # values with multi-byte characters: every byte offset of the fixed-length shapes the validators slice at
+        # ("0x" + 4 hex digits = 6 bytes; "1.0"; "base64"; the 64 hex digits of the i tag) is covered by a character boundary miss
+        for v in NONASCII_6 + ["0x\u00e9\u00e9", "\u00e90x0001", "0x0001\u00e9", "\u00e9", "\U0001f600"]:
+            rep("cs", [v], "kp:cs-wrong")
+            rep("ext", [v, "0xf2ee"], "kp:ext-wrong")
+            rep("ext", ["0x000a", "0xf2ee", v], "kp:ext-wrong")
+        for v in ("1.\u00e9", "\u00e9.0", "1\u00b70", "\uff11.\uff10", "1.0\u0000"):
+            rep("pv", [v], "kp:pv-wrong")
+        for v in ("bas\u00e964", "\u00e9ase64", "base6\u00e9", "base64\u0301", "\uff42ase64"):
+            rep("encoding", [v], "kp:enc-nonbase64")
+        for v in ("\u00e9" * 32, "0\u00e9" + "0" * 61):
+            rep("i", [v], "kp:i-variant")
+        for v in ("MDK/\u00e9", "\U0001f600", "wss://\u00e9.example.com", "wss://a.example.com/\u00e9"):
+            rep("client", [v], "kp:client-variant")     # (relay URLs with non-ASCII hosts / paths are the url crate's business: A9)
         for k in (444, 445, 1, 0, 65535, 10443):
             out.append(self.case("kp:kind-wrong", self.kp_op(B, kind=k)))
         out.append(self.case("kp:identity", self.kp_op(B, author="other")))
@@ -299,6 +316,12 @@ class Gen:
         for v in (["hex"], ["BASE64"], [""], None, ["base64", "x"], ["base64 "]):
             rep("encoding", v, "w:enc-variant" if v == ["base64", "x"] else "w:enc-nonbase64")
         out.append(self.case("w:enc-nonbase64", self.w_op(B + [("encoding", ["hex"])])))
+        for v in ("bas\u00e964", "\u00e9ase64", "base6\u00e9", "\uff42ase64"):
+            rep("encoding", [v], "w:enc-nonbase64")
+        for v in ("\u00e9" * 32, "\U0001f600" * 16, "0\u00e9" + "0" * 61):
+            rep("e", [v], "w:e-variant")
+        for v in ("wss://\u00e9.example.com", "\U0001f600"):
+            rep("client", [v], "w:client-variant")
         out.append(self.case("w:dup", self.w_op([("relays", None)] + B)))
         out.append(self.case("w:dup", self.w_op(B + [("relays", ["nope"])])))
         out.append(self.case("w:dup", self.w_op(B + [("client", None)])))
@@ -367,6 +390,17 @@ class Gen:
             parse("im:version", [(k, bad if k == "v" else v) for k, v in base])
         for bad in ("10x", "x20", "axb", "1x2x3", "+5x6", "4294967296x1", "-1x5", "10 x 20", "0010x0020", "10X20", ""):
             parse("im:dim-variant", [(k, bad if k == "dim" else v) for k, v in base])
+        for bad in ("\u00e9" * 32, X[:-2] + "\u00e9", "\u00e9" + X[2:], X[:31] + "\u00e9" + X[33:]):
+            parse("im:x-badlen", [(k, bad if k == "x" else v) for k, v in base])
+        for bad in ("\u00e9" * 12, N[:-2] + "\u00e9", N[:11] + "\u00e9" + N[13:]):
+            parse("im:n-badlen", [(k, bad if k == "n" else v) for k, v in base])
+        for bad in ("mip04-v\u00e9", "\u00e9ip04-v2", "mip04\u2010v2"):
+            parse("im:version", [(k, bad if k == "v" else v) for k, v in base])
+        for bad in ("1\u00e9x20", "10\u00d720", "\uff11\uff10x20", "10x2\u00e9"):
+            parse("im:dim-variant", [(k, bad if k == "dim" else v) for k, v in base])
+        parse("im:mime-bad", [(k, "image/p\u00e9g" if k == "m" else v) for k, v in base])
+        parse("im:mime-bad", [(k, "\u00e9mage/png" if k == "m" else v) for k, v in base])
+        parse("im:nospace", base + [("\u00e9", None), ("\u00e9 \u00e9", None)])
         for nm in ("o10", "o9", "o19", "o11", "e"):
             parse("im:name-wrong", base, name=nm)
         parse("im:short", base[:5])
